@@ -80,9 +80,28 @@ def oracle_on(s, c):
     return None
 
 
+def fmt_display(cells, final, ctls, mode):
+    """reply syntax of the driver op `display`"""
+    enc = lambda st: wire.enc_atts(dict(st))
+    cs = ";".join(wire.enc_text(ch) + "|" + enc(st) for ch, st in cells) or "-"
+    return "ok %s %s %s %s" % (cs, enc(final) or ".", ",".join(ctls) or ".", mode)
+
+
+def tie_display(ctx, name, cases, outs):
+    """Property-level correspondence: the Lean spec `display` (Spec/Sgr.lean) applied to the string the REAL code
+    produced must give what C01_display proves for the model's render: the effective cells of f, default final state,
+    nothing but SGR, ground mode.  Unlike the byte-for-byte tie this survives an equivalent re-encoding of the string."""
+    todo = [(c, o) for c, o in zip(cases, outs) if not any("\x1b" in t or "\x9b" in t for t, _ in c)]
+    ctx.tie(name, todo,
+            lambda co: ("display " + wire.enc_tf(wire.dec_text(co[1][3:]))) if co[1].startswith("ok ") else "display-unavailable",
+            lambda co: fmt_display(wire.eff_cells_of_chunks(co[0]), (), [], "ground"))
+
+
 def check(ctx):
     cases = mk_cases(ctx)
-    outs = ctx.tie("C01/render", cases, line, impl)
+    # byte-for-byte against the model's render: more than the property needs (representation level)
+    outs = ctx.tie("C01/render", cases, line, impl, level="representation")
+    tie_display(ctx, "C01/display-of-real-output", cases, outs)
     for c, o in zip(cases, outs):
         nontriv = any(any(v is not False for v in a.values()) for _, a in c)
         ctx.count(c, nontrivial=nontriv, tag="runs=%d" % len(c))
@@ -111,7 +130,8 @@ def check(ctx):
     def impl_obj(i_c):
         i, _ = i_c
         return guarded(lambda: "ok " + wire.enc_text(str(api_objs[i])))
-    outs2 = ctx.tie("C01/render-api-built", list(enumerate(api_cases)), lambda ic: line(ic[1]), impl_obj)
+    outs2 = ctx.tie("C01/render-api-built", list(enumerate(api_cases)), lambda ic: line(ic[1]), impl_obj, level="representation")
+    tie_display(ctx, "C01/display-of-real-output-api-built", api_cases, outs2)
     for c, o in zip(api_cases, outs2):
         ctx.count(c, nontrivial=bool(c), tag="api-built")
         if any("\x1b" in t or "\x9b" in t for t, _ in c):
@@ -158,10 +178,7 @@ def check(ctx):
     sample += ["\x1b[1;31;44mx\x1b[mz", "\x1b[38;5;1mq", "a\x1b[2Ab", "\x9b31mx", "\x1b[;my", "\x1bAz", "x\x1b[3"]
 
     def mirror(s):
-        cells, final, ctls, mode = sgrterm.display(s)
-        enc = lambda st: wire.enc_atts(dict(st))
-        cs = ";".join(wire.enc_text(ch) + "|" + enc(st) for ch, st in cells) or "-"
-        return "ok %s %s %s %s" % (cs, enc(final) or ".", ",".join(ctls) or ".", mode)
+        return fmt_display(*sgrterm.display(s))
     ctx.tie("C01/sgr-spec-mirror", sample, lambda s: "display " + wire.enc_tf(s), mirror)
     # second opinion independent of my reading of SGR: pyte (a terminal emulator) on ASCII runs, every 7th attribute
     # dict; compares character, colour NAMES, every style pyte knows (it has no faint/dark) and the final pen.
